@@ -360,7 +360,15 @@ def signature(obj):
         return _mask(sig, len(obj.args), False, False, False, False,
                      obj.keywords or {}, obj)
     sig =_util.funcsigs.signature(obj)
-    return set_default_sources(sig, obj)
+    ret = set_default_sources(sig, obj)
+    if not all(name in ret.parameters or name == '+depths'
+               for name in ret.sources):
+        # obj.__signature__ came with sources and inspect removed parameters
+        # from it (the receiver of a bound method, of a class's __init__)
+        ret = ret.replace(sources=dict(
+            (name, src) for name, src in ret.sources.items()
+            if name in ret.parameters or name == '+depths'))
+    return ret
 
 
 def copy_sources(src, func_swap={}, increase=False):
